@@ -42,7 +42,7 @@ class C02(Harness):
                 'thorough': {'schemas': gen.THOROUGH, 'max_lines': 4, 'value_len': '1-3'}}
 
     def budget(self, tier):
-        return 170 if tier == 'quick' else 1500
+        return 240 if tier == 'quick' else 1500
 
     def units(self, tier):
         us = []
